@@ -343,7 +343,12 @@ def classify(meta, res):
                "termination", "could not prove", "assert", "possible", "failed", "fails to satisfy")
         is_ver = any(k in msg for k in VER) and d.get("code") is None
         if not is_ver:
-            frontend.append({"message": msg, "spans": [(s.get("file_name"), s.get("line_start")) for s in spans], "rendered": d.get("rendered", "")[:2000]})
+            fe = {"message": msg, "spans": [(s.get("file_name"), s.get("line_start")) for s in spans], "rendered": d.get("rendered", "")[:2000]}
+            if "Resource limit (rlimit) exceeded" in msg:
+                # with --multiple-errors Verus keeps looking for further errors in a function after the first failed obligation and may
+                # run out of resources doing so; whether that leaves the unit undecided is settled below, once all failures are known
+                fe["rlimit_fn"] = next((fn_at(s["line_start"])["fn"] for s in gen_spans if fn_at(s["line_start"])), None)
+            frontend.append(fe)
             continue
         fn_e = None; clause = None; site = None
         for s in gen_spans:
@@ -370,6 +375,10 @@ def classify(meta, res):
         failures.append({"fn": fn_e["fn"] if fn_e else None, "clause": (clause[1] if clause and clause[0] == "ensures" else (clause[1] if clause else None)),
                          "clause_kind": clause[0] if clause else "body", "message": msg, "site": site,
                          "rendered": d.get("rendered", "")[:3000]})
+    # an rlimit report inside a function that already has a definite failed obligation belongs to the search for *further* errors
+    # there: the failure stands and the report is dropped; an rlimit report in a function without a failure keeps the unit undecided
+    failed_fns_ = set(f["fn"] for f in failures if f["fn"])
+    frontend = [fe for fe in frontend if not (fe.get("rlimit_fn") and fe["rlimit_fn"] in failed_fns_)]
     verified = {}
     js = res.get("json") or {}
     times = (js.get("times-ms") or {})
